@@ -84,11 +84,12 @@ func runC17(c *Ctx) {
 		"DET-MAPRANGE|ctl17.LabelledFirstHit", "DET-MAPRANGE|ctl17.ContinueOuter",
 		"DET-COLLECT|ctl17.SortKeyFuncPartial", "DET-COLLECT|ctl17.SortKeyCounting",
 		"DET-COLLECT|ctl17.DecoratePartial", "DET-COLLECT|ctl17.DecorateHalf", "DET-COLLECT|ctl17.DecorateForgotten", "DET-COLLECT|ctl17.ImageUnsorted",
-		"DET-COLLECT|ctl17.NamedLessPartial", "DET-COLLECT|ctl17.NamedPeek", "DET-MAPRANGE|ctl17.GuardLast"}
+		"DET-COLLECT|ctl17.NamedLessPartial", "DET-COLLECT|ctl17.NamedPeek", "DET-MAPRANGE|ctl17.GuardLast",
+		"DET-COLLECT|ctl17.PassedOrdered"}
 	for _, w := range want {
 		c.check(fired[w] > 0, "DET-CONTROL", "control", w, token.NoPos, "positive control fired", "the positive control "+w+" was not reported: the rule is broken")
 	}
-	silent := []string{"ctl17.KeyedCopy", "ctl17.SortedKeys", "ctl17.MinMax", "ctl17.SortFuncTotal", "ctl17.SorterType", "ctl17.InnerLabel", "ctl17.SortKeyFunc", "ctl17.Decorate", "ctl17.NamedLess", "ctl17.GuardMinMax"}
+	silent := []string{"ctl17.KeyedCopy", "ctl17.SortedKeys", "ctl17.MinMax", "ctl17.SortFuncTotal", "ctl17.SorterType", "ctl17.InnerLabel", "ctl17.SortKeyFunc", "ctl17.Decorate", "ctl17.NamedLess", "ctl17.GuardMinMax", "ctl17.PassedOrderFree", "ctl17.sortedOf", "ctl17.GenericSorted"}
 	for _, s := range silent {
 		n := 0
 		for k, v := range fired {
@@ -143,6 +144,7 @@ type detAnalyzer struct {
 	ssa     *ssaIndex           // SSA form of the function literals and functions of the package
 	labelOf map[ast.Stmt]string // label in front of a statement
 	derived []types.Object      // slices that the statement last judged by orderFreeUse fills from the unordered one
+	inCall  int                 // depth of declared functions entered to judge what they do with a slice parameter (ext_x10.go)
 }
 
 func (d *detAnalyzer) pkgShort() string {
@@ -658,6 +660,18 @@ func (d *detAnalyzer) orderFreeUse(st ast.Stmt, obj types.Object) (bool, string)
 		if d.onlyLen(st, obj) {
 			return true, ""
 		}
+		// handed to a declared function that does not depend on the order of its parameter (ext_x10.go)
+		lhsClean := true
+		for _, l := range st.Lhs {
+			if d.mentions(l, obj) {
+				lhsClean = false
+			}
+		}
+		if lhsClean {
+			if ok, _ := d.onlyOrderFreeArgs(st, obj); ok {
+				return true, ""
+			}
+		}
 		return false, "assignment uses the slice (" + d.c.pos(st.Pos()) + ")"
 	case *ast.IfStmt:
 		if st.Init != nil {
@@ -721,6 +735,11 @@ func (d *detAnalyzer) orderFreeUse(st ast.Stmt, obj types.Object) (bool, string)
 	case *ast.DeclStmt, *ast.ExprStmt:
 		if d.onlyLen(st, obj) {
 			return true, ""
+		}
+		if ok, why := d.onlyOrderFreeArgs(st, obj); ok {
+			return true, ""
+		} else if strings.Contains(why, "depends on its order") {
+			return false, why
 		}
 		return false, "the slice is passed on or inspected"
 	case *ast.ReturnStmt:
@@ -1310,6 +1329,18 @@ func (b *bodyClass) callExpr(call *ast.CallExpr, stmt bool) {
 		}
 		if okAll {
 			return
+		}
+		if len(eff.Params) == 1 && f.Type().(*types.Signature).Results().Len() == 0 {
+			// an accumulator that outlives the iteration: the calls must commute (ext_x10.go)
+			for p := range eff.Params {
+				ok, how := d.c.orderFreeReducerX10(sf, p)
+				if ok {
+					b.kinds = append(b.kinds, "accumulating call of "+f.Name()+": "+how)
+					return
+				}
+				b.problem(call.Pos(), "call of %s, which %s; the calls are not shown to commute: %s", f.FullName(), eff.String(), how)
+				return
+			}
 		}
 	}
 	b.problem(call.Pos(), "call of %s, which %s", f.FullName(), eff.String())
